@@ -116,7 +116,12 @@ func (w *w3) startNode(n *w3node) {
 	}
 	n.store = store
 	ttl := int(w.cfg("lease_ttl_s", 10))
-	n.plm = NewPartitionLeaseManager(store.EtcdClient(), PartitionLeaseConfig{BrokerID: n.broker, LeaseTTLSeconds: ttl, Logger: quiet()})
+	// the broker's acquisition hook reopens the partition log (S3 work of arbitrary duration)
+	hookLat := time.Duration(w.cfg("acquire_hook_ms", 0)) * time.Millisecond
+	n.plm = NewPartitionLeaseManager(store.EtcdClient(), PartitionLeaseConfig{BrokerID: n.broker, LeaseTTLSeconds: ttl, Logger: quiet(),
+		OnAcquire: func(ctx context.Context, topic string, partition int32) {
+			simrt.IO(ctx, "hook.acquire", fmt.Sprintf("%s/%d", topic, partition), hookLat, nil)
+		}})
 	n.glm = NewGroupLeaseManager(store.EtcdClient(), GroupLeaseConfig{BrokerID: n.broker, LeaseTTLSeconds: ttl, Logger: quiet()})
 	n.up = true
 }
@@ -523,6 +528,9 @@ func w3Gen(r *rand.Rand, prop, tier string) *simrt.Case {
 	cfg["nodes"] = int64(2 + r.IntN(2))
 	cfg["etcd_lat_us"] = pk3[int64](r, 100, 400, 3000)
 	cfg["lease_ttl_s"] = pk3[int64](r, 2, 5, 10)
+	if prop == "C18" {
+		cfg["acquire_hook_ms"] = []int64{0, 0, 5, 1500, 6000}[r.IntN(5)]
+	}
 	cfg["max_steps"] = 8000
 	cfg["max_virtual_s"] = 900
 	cfg["map_seed"] = int64(r.Uint32())
